@@ -9,6 +9,9 @@ import (
 func init() {
 	vfRegister("VfC07_getRIB_q", VfC07_getRIB_q)
 	vfRegister("VfC07_getRIB_t", VfC07_getRIB_t)
+	vfRegister("VfC07_getRIB_p", VfC07_getRIB_p)
+	vfRegister("VfC07_getRIB_p2", VfC07_getRIB_p2)
+	vfRegister("VfC07_getHistory", VfC07_getHistory)
 }
 
 var vfAFTTypes = []spb.AFTType{spb.AFTType_ALL, spb.AFTType_IPV4, spb.AFTType_IPV6, spb.AFTType_MPLS, spb.AFTType_NEXTHOP, spb.AFTType_NEXTHOP_GROUP}
@@ -64,6 +67,7 @@ func vfGetCheck(r *RIB, ref *vfRef, name string, typ spb.AFTType) []*spb.GetResp
 				vfAssert(vfAnd(vfEqUV(b.GetNextHopGroup() != nil, b.GetNextHopGroup().GetValue(), x.hasNHG, x.nhg),
 					vfAnd(vfEqSV(b.GetNextHopGroupNetworkInstance() != nil, b.GetNextHopGroupNetworkInstance().GetValue(), x.hasNHGNI, x.nhgNI),
 						vfEqBV(b.GetEntryMetadata() != nil, b.GetEntryMetadata().GetValue(), x.hasMD, x.md))), "C07:ipv4-payload-equals-last-programmed")
+				vfAssert(int32(b.GetDecapsulateHeader()) == x.decap(), "C07:ipv4-decapsulate-header-equals-last-programmed")
 			}
 		case *spb.AFTEntry_Ipv6:
 			vfAssert(want(spb.AFTType_IPV6), "C07:table-filter-respected")
@@ -75,6 +79,7 @@ func vfGetCheck(r *RIB, ref *vfRef, name string, typ spb.AFTType) []*spb.GetResp
 				vfAssert(vfAnd(vfEqUV(b.GetNextHopGroup() != nil, b.GetNextHopGroup().GetValue(), x.hasNHG, x.nhg),
 					vfAnd(vfEqSV(b.GetNextHopGroupNetworkInstance() != nil, b.GetNextHopGroupNetworkInstance().GetValue(), x.hasNHGNI, x.nhgNI),
 						vfEqBV(b.GetEntryMetadata() != nil, b.GetEntryMetadata().GetValue(), x.hasMD, x.md))), "C07:ipv6-payload-equals-last-programmed")
+				vfAssert(int32(b.GetDecapsulateHeader()) == x.decap(), "C07:ipv6-decapsulate-header-equals-last-programmed")
 			}
 		case *spb.AFTEntry_Mpls:
 			vfAssert(want(spb.AFTType_MPLS), "C07:table-filter-respected")
@@ -87,6 +92,7 @@ func vfGetCheck(r *RIB, ref *vfRef, name string, typ spb.AFTType) []*spb.GetResp
 				vfAssert(vfAnd(vfEqUV(b.GetNextHopGroup() != nil, b.GetNextHopGroup().GetValue(), x.hasNHG, x.nhg),
 					vfAnd(vfEqSV(b.GetNextHopGroupNetworkInstance() != nil, b.GetNextHopGroupNetworkInstance().GetValue(), x.hasNHGNI, x.nhgNI),
 						vfEqBV(b.GetEntryMetadata() != nil, b.GetEntryMetadata().GetValue(), x.hasMD, x.md))), "C07:mpls-payload-equals-last-programmed")
+				vfAssert(vfEqPoppedProto(b.GetPoppedMplsLabelStack(), x.stack()), "C07:mpls-popped-label-stack-equals-last-programmed")
 			}
 		case *spb.AFTEntry_NextHopGroup:
 			vfAssert(want(spb.AFTType_NEXTHOP_GROUP), "C07:table-filter-respected")
@@ -122,6 +128,7 @@ func vfGetCheck(r *RIB, ref *vfRef, name string, typ spb.AFTType) []*spb.GetResp
 					vfAssert(vfAnd(x.hasPop, b.GetPopTopLabel().GetValue() == x.pop), "C07:next-hop-pop-top-label-equals-last-programmed")
 				}
 				vfAssert(vfAnd(int32(b.GetEncapsulateHeader()) == x.encap, int32(b.GetDecapsulateHeader()) == x.decap), "C07:next-hop-encapsulation-headers-equal-last-programmed")
+				vfAssert(vfEqNHXProto(b, x.x), "C07:next-hop-extended-payload-equals-last-programmed")
 			}
 		default:
 			vfAssert(false, "C07:known-entry-kind")
@@ -154,12 +161,23 @@ func vfEqBV(has bool, b []byte, whas bool, wv uint8) bool {
 	return b[0] == wv
 }
 
-func vfGetRun(pre vfPreCfg, rich, fixLow bool) {
+func vfGetRun(pre vfPreCfg, rich, fixLow bool) { vfGetRunP(pre, rich, fixLow, false, 0) }
+
+// vfGetRunP: payload adds the extended payload fields to every entry of the pre-state; reprogram > 0 re-ADDs
+// that many next-hops / top-level entries with a fresh payload before the Get ("what was LAST programmed").
+func vfGetRunP(pre vfPreCfg, rich, fixLow, payload bool, reprogram int) {
 	r, ref := vfNewPair(true)
-	g := &vfGen{rich: rich, fixLow: fixLow, enums: rich}
+	g := &vfGen{rich: rich, fixLow: fixLow, enums: rich, payload: payload, lean: reprogram > 0}
 	vfCanonical(r, ref, g, pre)
+	for i := 0; i < reprogram; i++ {
+		d := g.anyOf("re", 1, vfADD, vfREPLACE, []int{vfKNH, vfKMPLS})
+		vfSubmit(r, ref, d)
+	}
 	vfReach("pre-built")
-	typ := vfAFTTypes[vfInt("aft", 0, len(vfAFTTypes)-1)]
+	typ := spb.AFTType_ALL
+	if reprogram == 0 {
+		typ = vfAFTTypes[vfInt("aft", 0, len(vfAFTTypes)-1)]
+	}
 	name := vfKnownNI("get")
 	got := vfGetCheck(r, ref, name, typ)
 	if typ == spb.AFTType_ALL {
@@ -196,4 +214,72 @@ func VfC07_getRIB_q() {
 
 func VfC07_getRIB_t() {
 	vfGetRun(vfPreCfg{nNH: 2, nNHG: 1, nTop: 2, nHeld: 1, members: 2, topKinds: vfTopAll}, true, false)
+}
+
+// getRIB_p: every next-hop carries one of the 13 extended payload shapes (valid content), IPv4/IPv6 entries a
+// decapsulate-header, label entries a popped stack; Get must return them field for field, stacks in order.
+func VfC07_getRIB_p() {
+	vfGetRunP(vfPreCfg{nNH: 1, nNHG: 1, nTop: 1, members: 1, topKinds: vfTopAll}, false, true, true, 0)
+}
+
+// getRIB_p2: as getRIB_p, then one further symbolic ADD/REPLACE of a next-hop / IPv4 / label entry that may
+// re-program an installed key with a different payload; Get(ALL) of either instance.
+func VfC07_getRIB_p2() {
+	vfGetRunP(vfPreCfg{nNH: 1, nNHG: 1, nTop: 1, members: 1, topKinds: []int{vfKMPLS}}, false, true, true, 1)
+}
+
+// getHistory: reads interleaved with changes - every Get must reflect the state at ITS moment.
+// program (next-hop with address+MAC payload, group, label entry with a popped stack, IPv4 entry with a
+// decapsulate-header) -> Get(ALL) -> one of {nothing, Flush of the instance, DELETE of the entries, nothing}
+// -> re-program next-hop (interface reference + pushed stack instead), label entry (other stack) and IPv4
+// entry (other header) under symbolic keys that may or may not equal the old ones -> Get(ALL) -> Get(NEXTHOP).
+func VfC07_getHistory() {
+	r, ref := vfNewPair(true)
+	g := &vfGen{}
+	ni := vfKnownNI("h")
+	must := func(d *vfOpD, want int) { vfAssume(vfSubmit(r, ref, d) == want) }
+	nh := &vfOpD{id: g.id(), typ: vfADD, kind: vfKNH, ni: ni, idx: vfU64("h.nh"), hasBody: true,
+		x: &vfPayloadX{hasIP: true, ip: vfStrK("h.ip", "ip"), hasMAC: true, mac: vfStrK("h.mac", "mac")}}
+	must(nh, vfStAcked)
+	nhg := &vfOpD{id: g.id(), typ: vfADD, kind: vfKNHG, ni: ni, idx: vfU64("h.nhg"), hasBody: true, members: []vfMember{{idx: nh.idx}}}
+	must(nhg, vfStAcked)
+	lbl := &vfOpD{id: g.id(), typ: vfADD, kind: vfKMPLS, ni: ni, label: vfU64("h.label"), hasBody: true, hasNHG: true, nhg: nhg.idx,
+		x: &vfPayloadX{stack: []uint64{vfU64("h.pop"), vfU64("h.pop")}}}
+	must(lbl, vfStAcked)
+	v4 := &vfOpD{id: g.id(), typ: vfADD, kind: vfKV4, ni: ni, pfx: vfStrK("h.pfx", "prefix4"), hasBody: true, hasNHG: true, nhg: nhg.idx,
+		x: &vfPayloadX{topDecap: 2}}
+	must(v4, vfStAcked)
+	vfReach("pre-built")
+	vfGetCheck(r, ref, ni, spb.AFTType_ALL)
+	switch vfInt("h.between", 0, 2) {
+	case 1:
+		vfAssert(r.Flush([]string{ni}) == nil, "C08:flush-answers-ok-when-everything-was-removed")
+		ref.flush([]string{ni})
+		vfReach("flushed")
+	case 2:
+		for _, d := range []*vfOpD{v4, lbl, nhg, nh} {
+			del := *d
+			del.id, del.typ = g.id(), vfDELETE
+			must(&del, vfStAcked)
+		}
+		vfReach("deleted")
+	}
+	ref.compareP(r, "C07:tables-", true)
+	// re-program: a next-hop (same or another index) with a different KIND of payload
+	nh2 := &vfOpD{id: g.id(), typ: vfADD, kind: vfKNH, ni: ni, idx: vfU64("h.nh2"), hasBody: true,
+		x: &vfPayloadX{hasIf: true, ifname: vfStrK("h.if", "ni"), hasSub: true, sub: uint64(vfU32("h.sub")), stack: []uint64{vfU64("h.push"), vfU64("h.push"), vfU64("h.push")}}}
+	vfAssume(!nh2.x.invalid())
+	must(nh2, vfStAcked)
+	nhg2 := &vfOpD{id: g.id(), typ: vfADD, kind: vfKNHG, ni: ni, idx: nhg.idx, hasBody: true, members: []vfMember{{idx: nh2.idx}}}
+	must(nhg2, vfStAcked)
+	lbl2 := &vfOpD{id: g.id(), typ: vfADD, kind: vfKMPLS, ni: ni, label: vfU64("h.label2"), hasBody: true, hasNHG: true, nhg: nhg.idx,
+		x: &vfPayloadX{stack: []uint64{vfU64("h.pop2")}}}
+	must(lbl2, vfStAcked)
+	v42 := &vfOpD{id: g.id(), typ: vfADD, kind: vfKV4, ni: ni, pfx: vfStrK("h.pfx2", "prefix4"), hasBody: true, hasNHG: true, nhg: nhg.idx,
+		x: &vfPayloadX{topDecap: 3}}
+	must(v42, vfStAcked)
+	vfGetCheck(r, ref, ni, spb.AFTType_ALL)
+	vfGetCheck(r, ref, ni, spb.AFTType_NEXTHOP)
+	vfGetCheck(r, ref, ni, spb.AFTType_MPLS)
+	vfReach("end")
 }
